@@ -4,7 +4,7 @@ from lib import (Canon, cguards, norm_arm, walk, nodes, ends, src, psrc, outcome
                  strip_refs, guards, gtext, top_stmts, templates_in)
 
 EXPLANATION = (
-    "Decides four shape clauses that are necessary for 'generation never makes a type narrower', not serde's acceptance "
+    "Decides shape clauses that are necessary for 'generation never makes a type narrower', not serde's acceptance "
     "behaviour: (W1) StructPropertyState::Required reaches a named property only on the branch where `required` contains its "
     "name; the Required answered by the default classifier is turned into Optional + Option<T>; flattened members are the tabled "
     "exception; (W2) every source of deny_unknown_fields = true is the `additionalProperties: false` arm, a value propagated "
